@@ -39,4 +39,50 @@ theorem C08_sync_is_source (v : World) (s : SugO) (st : SugSt) (ts : List TrialO
     by_cases h3 : ((replyCount env (s.requests - st.count) : Nat) : Int) ≠ s.requests - st.count <;> cases h4 : s.es <;>
     simp [h1, h2, h3, h4]
 
+/-! ## `ReconcileSuggestion`: volume, RBAC, readiness, validation, sync -/
+
+/-- the generated guards at a reconcile in which no call fails -/
+def rsG (fromVolume esSet generatedAccount deployReady running : Bool)
+    (g : Bool → Bool → Bool → Bool → Bool → Bool → Bool → Bool → Bool → Bool → Bool → Bool → Bool → Bool → Bool → Bool → Bool → Bool → Bool → Bool → Bool) : Bool :=
+  g fromVolume esSet generatedAccount deployReady running false false false false false false false false false false false false false false false
+
+def sugTailGen (v : World) (s : SugO) (st1 : SugSt) (env : SugEnv) (now : Nat) : Prog :=
+  match findExp v s.key with
+  | none => sugErr s st1
+  | some _ =>
+    let ts := trialsOf v s.key
+    let G := rsG (s.resume == .fromVolume) s.es true true (Cond.has st1.conds .running)
+    let running : SugSt := if G markSugRunningGuard then { st1 with conds := sugMarkRunning st1.conds true rSugRunning now } else st1
+    let failed := sugFinish s { st1 with conds := sugMarkFailed st1.conds rSugFailed now }
+    let sync : Prog := if G callSyncGuard then sugSync v s running ts env else sugFinish s running
+    let afterValidate : Prog := if G callValidateESGuard then .step .rpcValidateES sync failed else sync
+    if G callValidateGuard then .step (.rpcValidate s.key.name) afterValidate failed else afterValidate
+
+theorem C16_reconcile_suggestion_guards_known :
+    callReconcileVolumeGuardUnknown = [] ∧ callReconcileRBACGuardUnknown = [] ∧ markDeployNotReadyGuardUnknown = [] ∧
+    callValidateGuardUnknown = [] ∧ callValidateESGuardUnknown = [] ∧ markSugRunningGuardUnknown = [] ∧ callSyncGuardUnknown = [] ∧
+    callReconcileVolumeGuardSites = 1 ∧ callReconcileRBACGuardSites = 1 ∧ markDeployNotReadyGuardSites = 1 ∧
+    callValidateGuardSites = 1 ∧ callValidateESGuardSites = 1 ∧ markSugRunningGuardSites = 1 ∧ callSyncGuardSites = 1 := by decide
+
+set_option linter.unusedSimpArgs false in
+/-- **C16_reconcile_suggestion_is_source**: once the Deployment is ready — validation only for a Suggestion that is not Running,
+    the early-stopping validation only with early stopping, Running marked after both, then the sync -/
+theorem C16_reconcile_suggestion_is_source (v : World) (s : SugO) (st1 : SugSt) (env : SugEnv) (now : Nat) :
+    sugTail v s st1 env now = sugTailGen v s st1 env now := by
+  unfold sugTail sugTailGen rsG callValidateGuard callValidateESGuard markSugRunningGuard callSyncGuard
+  cases hfe : findExp v s.key with
+  | none => rfl
+  | some e =>
+    cases hr : Cond.has st1.conds .running <;> cases hes : s.es <;> cases hres : s.resume <;> simp [hr, hes, hres]
+
+/-- the volume is reconciled exactly under FromVolume, the RBAC objects exactly with early stopping (and the generated account),
+    and a Deployment that is not ready ends the reconcile with DeploymentReady = False — the tests of the model's
+    `sugReconcile` / `sugRbac` / `sugDeploy` -/
+theorem C17_volume_rbac_readiness_guards_are_source (fv es ga dr rn : Bool) :
+    rsG fv es ga dr rn callReconcileVolumeGuard = fv ∧
+    rsG fv es ga dr rn callReconcileRBACGuard = (es && ga) ∧
+    rsG fv es ga dr rn markDeployNotReadyGuard = !dr := by
+  cases fv <;> cases es <;> cases ga <;> cases dr <;> exact ⟨rfl, rfl, rfl⟩
+
+
 end Katib.Gen
